@@ -522,7 +522,7 @@ class FString(Sequence):
                 node
                 for is_string, components in groupby(s, lambda x: isinstance(x, String))
                 for node in (
-                    [reduce(operator.add, components)] if is_string else components
+                    [cls._join_strings(list(components))] if is_string else components
                 )
             ),
         )
@@ -532,6 +532,18 @@ class FString(Sequence):
         value.brackets = brackets
         value.is_tstring = is_tstring
         return value
+
+    @staticmethod
+    def _join_strings(strings):
+        joined = reduce(operator.add, strings)
+        if len(strings) > 1:
+            # The sum has no position of its own. It spans from the
+            # start of the first string to the end of the last.
+            for attr in Object.properties:
+                src = strings[0 if "start" in attr else -1]
+                if hasattr(src, attr):
+                    setattr(joined, attr, getattr(src, attr))
+        return joined
 
     def __repr__(self):
         return self._suffixize(super().__repr__())
